@@ -6,12 +6,11 @@ package prefix
 
 //@ guard Handler.Records by Mutex
 
-// key of the lease table: a function of the client identifier value (TRUSTED: string(d.ToBytes()))
-//@ pure func duidkey(d dhcpv6.DUID) string
+// key of the lease table: the wire form of the client identifier, which identifies the client
+// (C08: leases of different client identifiers are kept apart)
 //@ func recordKey
-//@   trusted
 //@   modifies nothing
-//@   ensures ret == duidkey(d)
+//@   ensures[C08,C09:key-is-the-wire-form-of-the-duid] ret == duidwire(d)
 
 //@ func samePrefix
 //@   modifies nothing
